@@ -161,15 +161,21 @@ def check(prog, run):
             b = I.call(I.get_attr(cls, case["marshall"], None, _F()), [d], {}, None, _F())
             again = I.call(I.get_attr(cls, case["marshall"], None, _F()), [case["build"]()], {}, None, _F())
             d1 = I.call(I.get_attr(cls, case["unmarshall"], None, _F()), [b], dict(case["ukw"]), None, _F())
-            return b, again
+            b = b.copy() if isinstance(b, Buf) else b
+            same_obj = I.call(I.get_attr(cls, case["marshall"], None, _F()), [d], {}, None, _F())
+            return b, again, same_obj
         ps = I.explore(th2, max_paths=64)
         collect(ps, case["name"])
         # repeating a marshalling call with equal inputs yields equal bytes
         for p in ps:
             if p.returned:
-                b, again = p.value
+                b, again, same_obj = p.value
                 from ..images import same_value
-                if same_value(b, again):
+                if not same_value(b, same_obj):
+                    run.violation("marshalling-repeatable", case["name"],
+                                  "marshalling the very same dictionary a second time gives different bytes (the first call changed "
+                                  "what the caller passed in)", prog.rel(cls.module), None, case["cls"])
+                elif same_value(b, again):
                     run.ok("marshalling-repeatable", case["name"], nontrivial=False)
                 else:
                     run.violation("marshalling-repeatable", case["name"], "two marshalling calls with equal inputs give different bytes",
